@@ -34,12 +34,13 @@ type Engine struct {
 	luaTrusted    []string
 	notDecided    map[string][]string
 	lemmaUsed     map[string]bool
+	repDone       map[string]bool
 }
 
 func newEngine(repo, verif string) *Engine {
 	return &Engine{repo: repo, verif: verif, cs: newContractSet(), pkgs: map[string]*packages.Package{}, famSorts: map[string]Sort{},
 		trusted: map[string]map[string]bool{}, meta: map[string]map[string]bool{}, contractDirs: map[string]string{},
-		funcDecls: map[string]*ast.FuncDecl{}, funcPkg: map[string]*packages.Package{}, notDecided: map[string][]string{}, lemmaUsed: map[string]bool{}}
+		funcDecls: map[string]*ast.FuncDecl{}, funcPkg: map[string]*packages.Package{}, notDecided: map[string][]string{}, lemmaUsed: map[string]bool{}, repDone: map[string]bool{}}
 }
 
 func (e *Engine) specError(msg string) {
@@ -279,7 +280,7 @@ func (e *Engine) runUnit(c *Contract) (u *Unit) {
 	}
 	u = &Unit{eng: e, c: c, name: shortKey(c.Key), declared: map[string]bool{}, assumptions: map[string]bool{}, uncontracted: map[string]bool{},
 		strLits: map[string]string{}, oblCount: map[string]int{}, loopOrd: map[ast.Stmt]string{}, callOrd: map[*ast.CallExpr]string{},
-		litOrd: map[*ast.FuncLit]int{}, allocd: map[string]bool{}, reached: map[string]bool{}, maxPaths: 4000, entryHeld: map[string]bool{}}
+		litOrd: map[*ast.FuncLit]int{}, allocd: map[string]bool{}, allocT: map[string]types.Type{}, reached: map[string]bool{}, maxPaths: 4000, entryHeld: map[string]bool{}}
 	defer func() {
 		if r := recover(); r != nil {
 			u.subsetErrs = append(u.subsetErrs, fmt.Sprintf("engine panic: %v", r))
@@ -405,6 +406,23 @@ func (e *Engine) runUnit(c *Contract) (u *Unit) {
 				if rv, ok := st.env[ro]; ok && rv.K == vScalar {
 					st.assume(u.typeInvTerm(st, e.cs.TypeInvs[key], u.namedByKey(key), rv.T))
 				}
+			}
+		}
+	}
+	// representation encapsulation of the receiver's type (once per type and run)
+	if c.Closure < 0 && fd.Recv != nil && len(fd.Recv.List) > 0 {
+		rt := info.TypeOf(fd.Recv.List[0].Type)
+		if p, ok := rt.(*types.Pointer); ok {
+			rt = p.Elem()
+		}
+		if n, ok := rt.(*types.Named); ok && n.Obj().Pkg() != nil {
+			k := n.Obj().Pkg().Path() + "." + n.Obj().Name()
+			e.mu.Lock()
+			first := !e.repDone[k]
+			e.repDone[k] = true
+			e.mu.Unlock()
+			if first {
+				e.repCheck(u, n)
 			}
 		}
 	}
